@@ -121,7 +121,7 @@ Definition parse_read_box (p : N) (r : senc_raw) : res senc :=
     let count := r_count r in
     if N.land (r_flags r) 2 =? 0 then
       do p' <- (if p =? 0 then (if count =? 0 then Panic else Ok (u8 (left / count))) else Ok p);
-      if left <? p' * count then Err
+      if negb (left =? p' * count) then Err        (* text after the fix: the IVs must fill the data exactly *)
       else if p' =? 0 then Ok (mkSenc 0 false count [] [])
       else if (p' =? 8) || (p' =? 16) then
         Ok (mkSenc p' false count (read_ivs (N.to_nat count) (N.to_nat p') (r_raw r)) [])
